@@ -113,8 +113,9 @@ def Mgr.newWith (clamped : Bool) (baseRf hotRf recalcInterval : Nat) (cfg : HotC
   { det := Detector.new cfg, overrides := [], baseRf := baseRf, hotRf := effHot clamped baseRf hotRf,
     recalcInterval := recalcInterval, lastRecalc := 0, promotions := 0, demotions := 0 }
 
-/-- the current tree: `hot_key_rf` is taken as configured, also below `base_rf` -/
-def currentHotClamped : Bool := false
+/-- the current tree: `new` raises `hot_key_rf` to at least `base_rf` (fix of
+    C19:adaptive:config:hot_key_rf<base_rf:hot-key-loses-owners) -/
+def currentHotClamped : Bool := true
 
 def Mgr.new (baseRf hotRf recalcInterval : Nat) (cfg : HotCfg) : Mgr :=
   Mgr.newWith currentHotClamped baseRf hotRf recalcInterval cfg
